@@ -501,6 +501,31 @@ def run(ctx):
                   'in `conn: obj.name(args)` the text before : is the connection, before . the object, then the message name, and the argument list in parentheses',
                   'pattern parts are wired as %s; documented %s' % ({k: v[:70] for k, v in got.items() if want.get(k) != v}, {k: v[:70] for k, v in want.items() if got.get(k) != v}))
     ctx.floor('C05.6', n_mp, 4, 'MessagePattern paths of _parse_message_pattern')
+    # .. and there is no other way through the pattern parser: a returning path gives a MessagePattern (above), the bare-object pair
+    # (on the object / mentioning it as an argument - same connection and object text in both), or * for the empty text.  A branch that takes
+    # some texts out of this table (a new spelling tried before the documented ones) changes what documented matchers select.
+    n_forms = 0
+    for p in paths_of(repo, f_pmp, asserts='ignore'):
+        if p.outcome[0] != 'return':
+            continue
+        rv = p.outcome[1]
+        if isinstance(rv, ast.Call) and norm(rv.func) == 'MessagePattern':
+            continue
+        n_forms += 1
+        t = _dn(rv)
+        facts = {a.text: v for a, v in p.decisions}
+        colon = "_split_pair(text, ':')"
+        has_colon = facts.get(colon + ' is None') is False or facts.get(colon) is True
+        msg = colon + '[1]' if has_colon else 'text'
+        conn = 'ConnectionMatcher(_parse_text_matcher(%s))' % (colon + '[0]' if has_colon else "'*'")
+        bare = ('MatcherList([MessagePattern(%s, _parse_obj_matcher(%s), AlwaysMatcher(True), AlwaysMatcher(True)), MessagePattern(%s, AlwaysMatcher(True), AlwaysMatcher(True), '
+                'ArgsMatcherList([ArgMatcher(AlwaysMatcher(True), ObjectArgValueMatcher(_parse_obj_matcher(%s)))], []))], [])' % (conn, msg, conn, msg))
+        empty = [v for a, v in p.decisions if a.text in ('text', "'' == text", "text == ''")]
+        ok = t == bare or (t == 'AlwaysMatcher(True)' and bool(empty))
+        ctx.check(ok, 'C05.6', 'pattern:form:%s' % ('bare-object' if t.startswith('MatcherList(') else ('empty' if t == 'AlwaysMatcher(True)' else 'other')), f_pmp.loc(),
+                  'a pattern without name and arguments selects messages on the object or mentioning it; the empty pattern selects everything',
+                  'a pattern can also be parsed as %s - a form the documented grammar does not have (path: %s)' % (t[:160], [a.text[:40] for a, v in p.decisions if v][:4]))
+    ctx.floor('C05.6', n_forms, 3, 'other returning paths of _parse_message_pattern')
     # name=value
     f_pam = repo.func('matcher._parse_arg_matcher')
     n_am = 0
